@@ -76,8 +76,15 @@ class PickleSafeException(Exception):
 
     @classmethod
     def from_exc(cls, orig_exc: Exception, device_id: str) -> "PickleSafeException":
+        orig_exc_cls: Type[Exception] = orig_exc.__class__
+        try:
+            pickle.dumps(orig_exc_cls)
+        except Exception:
+            # a class is pickled by reference: one that cannot be found again (defined inside a function, ...)
+            # would make the whole outcome unsendable and the device would get no result at all
+            orig_exc_cls = Exception
         return PickleSafeException(
-            orig_exc.__class__,
+            orig_exc_cls,
             str(orig_exc),
             device_id,
             pickle_safe_traceback_formatter_connector.get()(orig_exc)
